@@ -246,8 +246,6 @@ func c13Baseline(t *testing.T, w *c13World, r *vrep.Result) {
 	}
 }
 
-const c13SampleEvery = 2000
-
 func TestVerifC13Msg(t *testing.T) {
 	w := c13GetWorld(t)
 	r := vrep.New("C13", "message-product")
@@ -260,8 +258,9 @@ func TestVerifC13Msg(t *testing.T) {
 	r.Bounds["entry"] = "idService.consumeMessage(mes, conn, isPush) on a fresh fixture per case"
 	var dist c13Distinct
 	rp := &c13Reporter{r: r}
-	var exec, evals int64
+	var exec int64
 	var cmu sync.Mutex
+	var smp c13Sampler
 	done := c13Each(t, r, n, func(i int) error {
 		cs := c13Decode(dims, i)
 		var infra error
@@ -297,11 +296,10 @@ func TestVerifC13Msg(t *testing.T) {
 			}
 			cmu.Lock()
 			exec++
-			evals++
-			if exec%(c13SampleEvery) == 1 {
-				r.Sample(map[string]any{"tuple": c13Named(dims, cs), "outcome_for_R": oc, "findings": len(fs)})
-			}
 			cmu.Unlock()
+			if fl.LA == c13LaMix && fl.SR > c13SrRValidNoAddrs && fl.PK > c13PkR && fl.PR == 1 && i%7 == 3 && smp.take() {
+				r.Sample(map[string]any{"case_index": i, "tuple": c13Named(dims, cs), "outcome_for_R": oc, "findings": len(fs)})
+			}
 		})
 		if err != nil {
 			return err
@@ -453,6 +451,7 @@ func TestVerifC13Caps(t *testing.T) {
 	rp := &c13Reporter{r: r}
 	var exec int64
 	var cmu sync.Mutex
+	var smp c13Sampler
 	c13Each(t, r, n, func(i int) error {
 		cs := c13Decode(dims, i)
 		var infra error
@@ -503,15 +502,15 @@ func TestVerifC13Caps(t *testing.T) {
 				r.Violate("identified-addrs-outlive-finite-lifetime/"+c13CapsNames["consumed"][cs["consumed"]],
 					fmt.Sprintf("%d identify-carried addresses of R (e.g. %s) are still returned %s after the last connection closed", left, smp, peerstore.RecentlyConnectedAddrTTL+c13Eps), replay)
 			}
-			oc := fmt.Sprintf("addrs:%s protos:%s recent:%s", c13Bucket(nA, connectedPeerMaxAddrs+nPre), c13Bucket(nP, maxPeerProtocols), c13Bucket(nRecent, recentlyConnectedPeerMaxAddrs))
+			oc := fmt.Sprintf("addrs:%s protos:%s recent:%s", c13Bucket(nA, connectedPeerMaxAddrs+nPre), c13Bucket(nP, maxPeerProtocols), c13Bucket2(nRecent, recentlyConnectedPeerMaxAddrs))
 			r.Outcome(oc)
 			dist.add(c13TupleKey(dims, cs))
 			cmu.Lock()
 			exec++
-			if exec%500 == 1 {
-				r.Sample(map[string]any{"tuple": c13NamedWith(dims, cs, c13CapsNames), "addrs_after": nA, "protocols_after": nP, "addrs_after_disconnect": nRecent})
-			}
 			cmu.Unlock()
+			if cs["second_message"] == 1 && cs["listenAddrs"] != 0 && cs["protocols"] != 0 && smp.take() {
+				r.Sample(map[string]any{"case_index": i, "tuple": c13NamedWith(dims, cs, c13CapsNames), "addrs_after": nA, "protocols_after": nP, "identify_carried_addrs_after_disconnect": nRecent})
+			}
 		})
 		if err != nil {
 			return err
@@ -520,6 +519,18 @@ func TestVerifC13Caps(t *testing.T) {
 	})
 	r.Executions = exec
 	r.Distinct = dist.n()
+}
+
+// c13Bucket2 does not separate "<cap" from "=cap": which 20 addresses Disconnected keeps depends on map order
+// (a pre-existing non-identify address may be among them), the histogram must not.
+func c13Bucket2(n, cap int) string {
+	switch {
+	case n == 0:
+		return "0"
+	case n <= cap:
+		return "<=cap"
+	}
+	return ">cap"
 }
 
 func c13Bucket(n, cap int) string {
